@@ -871,17 +871,18 @@ Definition state_accepts_leader (state : string) : bool := String.eqb state "up"
 
 Inductive ccase :=
 | CRule (state : string) (real : bool)                                (* StoreStateFilter{TransferLeader}.Target on a store in that state *)
+| CServed (r : region) (ss : list step) (tr : list tobs)              (* an operator PD built through its RPC layer, run on the region as PD has it *)
 | CExec (r : region) (ss : list step) (xs : list xobs)                (* a plan run by the real OperatorController *)
 | CBuild (i : binput) (out : bout) (tr : list tobs)                   (* NewBuilder ... Build *)
 | CLeave (c : cluster) (r : region) (out : bout) (tr : list tobs)     (* CreateLeaveJointStateOperator *)
 | CProbe (r : region) (ss : list step) (tr : list tobs)               (* arbitrary steps on an arbitrary region: step.go only *)
 | CPend (r : region) (pend : list Z) (ss : list step) (fins : list bool). (* IsFinish of each step on r with pending peers *)
 
-Definition case_region (c : ccase) : region := match c with CBuild i _ _ => i_region i | CLeave _ r _ _ | CProbe r _ _ | CPend r _ _ _ | CExec r _ _ => r | CRule _ _ => Region [] 0 0 0 end.
-Definition case_out (c : ccase) : bout := match c with CBuild _ o _ | CLeave _ _ o _ => o | CProbe _ ss _ => Built ss false false | CPend _ _ _ _ | CExec _ _ _ | CRule _ _ => BuildErr end.
-Definition case_trace (c : ccase) : list tobs := match c with CBuild _ _ t | CLeave _ _ _ t | CProbe _ _ t => t | CPend _ _ _ _ | CExec _ _ _ | CRule _ _ => [] end.
+Definition case_region (c : ccase) : region := match c with CBuild i _ _ => i_region i | CLeave _ r _ _ | CProbe r _ _ | CPend r _ _ _ | CExec r _ _ | CServed r _ _ => r | CRule _ _ => Region [] 0 0 0 end.
+Definition case_out (c : ccase) : bout := match c with CBuild _ o _ | CLeave _ _ o _ => o | CProbe _ ss _ | CServed _ ss _ => Built ss false false | CPend _ _ _ _ | CExec _ _ _ | CRule _ _ => BuildErr end.
+Definition case_trace (c : ccase) : list tobs := match c with CBuild _ _ t | CLeave _ _ _ t | CProbe _ _ t | CServed _ _ t => t | CPend _ _ _ _ | CExec _ _ _ | CRule _ _ => [] end.
 Definition model_out (c : ccase) : bout :=
-  match c with CBuild i _ _ => build i | CLeave cl r _ _ => leave_joint_op cl r | CProbe _ ss _ => Built ss false false | CPend _ _ _ _ | CExec _ _ _ | CRule _ _ => BuildErr end.
+  match c with CBuild i _ _ => build i | CLeave cl r _ _ => leave_joint_op cl r | CProbe _ ss _ | CServed _ ss _ => Built ss false false | CPend _ _ _ _ | CExec _ _ _ | CRule _ _ => BuildErr end.
 
 (* None = model and implementation agree *)
 Definition check_case (c : ccase) : option (string * bout * list (nat * option tobs * option tobs)) :=
@@ -1033,6 +1034,19 @@ Fixpoint pend_monitor (r : region) (pend : list Z) (ss : list step) (fins : list
 
 Definition monitor (c : ccase) : option string :=
   match c with CPend r pend ss fins => pend_monitor r pend ss fins | CExec r ss xs => exec_monitor ss xs
+  | CServed r ss tr =>
+      (* an operator PD built itself, for a region it knows: every step's precondition holds when its turn comes *)
+      let fix first_unsafe (ss : list step) (tr : list tobs) : option string :=
+        match ss, tr with
+        | s :: sr, t :: trr => if negb (t_fin_before t) && negb (t_safe t)
+                               then Some (sapp "C08:served-plan:check-safety-fails:" (step_name s))
+                               else first_unsafe sr trr
+        | _, _ => None
+        end in
+      match first_unsafe ss tr with
+      | Some v => Some v
+      | None => step_monitor r ss tr
+      end
   | CRule state real =>
       if Bool.eqb real (state_accepts_leader state) then None
       else Some (sapp "C08:leader-target-rule:" (sapp state (if real then "-store-accepted" else "-store-refused")))
